@@ -162,7 +162,7 @@ func TestVerifC16(t *testing.T) {
 				bufs = append(bufs, bufT{rng.Intn(len(pool) - l), l})
 			}
 		} else {
-			c.Distinct = rng.Range(12, 30)
+			c.Distinct = rng.Range(24, 48) // 6-13 MB: several 4 MiB packs fill up and are uploaded mid-session
 			for i := 0; i < c.Distinct; i++ {
 				l := rng.Range(100_000, 450_000)
 				bufs = append(bufs, bufT{rng.Intn(len(pool) - l), l})
